@@ -176,7 +176,7 @@ Qed.
 Lemma expand_home_tagged W (cmd : str) l :
   ~ In 126 cmd -> Forall tagged l -> expand_home W ((TNone, cmd) :: l) = (TNone, cmd) :: l.
 Proof.
-  intros Hc Hl. unfold expand_home. cbn [map]. rewrite (expand_home_map_tagged W l Hl).
+  intros Hc Hl. rewrite expand_home_map. cbn [map]. rewrite (expand_home_map_tagged W l Hl).
   unfold expand_home_tok. cbn [fst snd tag_is_empty tag_eqb]. rewrite (strip_prefix_absent 126 cmd Hc).
   reflexivity.
 Qed.
@@ -192,7 +192,7 @@ Qed.
 
 Lemma expand_env_forall2 W l l' : Forall2 (tok_ok W) l l' -> expand_env W l = l'.
 Proof.
-  unfold expand_env. induction 1 as [|t t' l l' Ht _ IH]; [reflexivity|].
+  rewrite expand_env_map. induction 1 as [|t t' l l' Ht _ IH]; [reflexivity|].
   cbn [map]. rewrite (expand_env_tok_ok _ _ _ Ht), IH. reflexivity.
 Qed.
 
@@ -200,7 +200,7 @@ Lemma expand_env_inert W (cmd : str) l l' :
   ~ In 36 cmd -> Forall2 (tok_ok W) l l' ->
   expand_env W ((TNone, cmd) :: l) = (TNone, cmd) :: l'.
 Proof.
-  intros Hc Hl. pose proof (expand_env_forall2 _ _ _ Hl) as E. unfold expand_env in *.
+  intros Hc Hl. pose proof (expand_env_forall2 _ _ _ Hl) as E. rewrite expand_env_map in *.
   cbn [map]. rewrite E. unfold expand_env_tok. cbn [fst snd].
   rewrite (env_in_token_no_dollar cmd Hc). reflexivity.
 Qed.
